@@ -142,17 +142,17 @@ type Explorer struct {
 	OnState func(path []Op, build func() Inst, st *Stats) *Viol
 	// Want filters violations: only those tagged with this property stop the search
 	// ("" = any).
-	Want      string
-	OutGuard  bool // treat bytes on fd 1/2 as violation (C17)
-	NoState   bool // skip CheckState (when another job already does it)
-	Quiet     bool // no samples
+	Want     string
+	OutGuard bool // treat bytes on fd 1/2 as violation (C17)
+	NoState  bool // skip CheckState (when another job already does it)
+	Quiet    bool // no samples
 	// Beyond: keep exploring behind a transition whose oracle reported a violation of a
 	// property this run does not decide (C17 only needs the guards, not the reference: a
 	// corrupted structure often panics or loops a few operations later).
 	Beyond bool
 	// After runs once the fixpoint is reached (deferred multi-root work); a violation
 	// it returns is attributed to the path it names.
-	After func(e *Explorer) *Found
+	After     func(e *Explorer) *Found
 	SampleN   int
 	recs      []stateRec
 	seen      map[[16]byte]int32
